@@ -26,7 +26,8 @@ ASSUMPTIONS = [
     "addOnException handlers that raise are outside the domain (documented to abort the run)",
 ]
 
-PROG = P.programs(nonexc=True, multi=True, expect=True, force=True, decor=True, cleanup_depth=2, p_raise=4, extras=True)
+PROG = P.programs(nonexc=True, multi=True, expect=True, force=True, decor=True, cleanup_depth=2, p_raise=4, extras=True,
+                  nonexc_more=True, texts=True, rets=True, upcall=True)
 CASE = st.fixed_dictionaries({"prog": PROG, "flavour": st.sampled_from(R.FLAVOURS)})
 
 
